@@ -140,15 +140,35 @@ fn data_twins(front: Front, reg: Reg, flip_bit: Option<usize>, rng: &mut Prng, c
     // (in "adr mode" no downlink is accepted before the insertion, so the counter survives)
     let adr_mode = rng.chance(1, 4);
     let start_adr = if adr_mode { *rng.pick(&[62u32, 63, 64, 65, 94, 95, 96, 127]) } else { 0 };
+    // state-machine front-end, one pair in three: the device object has lived through an earlier session
+    // under the same address and other keys (one uplink, one downlink of that session accepted) before
+    // the session of this history is installed in it with set_session; frames of the session that was
+    // left are then among the rejected ones
+    let prelude = front == Front::Nb && (seed >> 3) % 3 == 0;
+    let mut ro = Prng::new(seed ^ 0x01d5_e55);
+    let old_keys: ([u8; 16], [u8; 16]) = (ro.arr(), ro.arr());
     let mk = |r: &mut Prng| -> Option<(Dev, Net)> {
         let opts = DevOpts { rng_seed: Some(seed ^ 0xA5), ..Default::default() };
-        abp_dev(front, reg, r, &opts, |sj| {
+        let (mut d, net) = abp_dev(front, reg, r, &opts, |sj| {
             sj["fcnt_up"] = json!(start_up);
             sj["fcnt_down"] = json!(start_down);
             sj["adr_ack_cnt"] = json!(start_adr);
         })
-        .ok()
+        .ok()?;
+        if prelude {
+            let sj = d.session_json()?;
+            d.join_abp(old_keys.0, old_keys.1, net.addr);
+            let old = Net { nwk: old_keys.0, app: old_keys.1, addr: net.addr };
+            let f = old.downlink(&Down { fcnt: 1, port: Some(3), payload: &[9, 9], ..Default::default() });
+            let _ = d.transact(Action::Send { data: &[7], port: 2, confirmed: false }, &Script::rx1(f));
+            let _ = d.take_downlinks();
+            d.set_session_json(&sj).ok()?;
+        }
+        Some((d, net))
     };
+    if prelude {
+        col.event("sessions_installed_after_an_earlier_session");
+    }
     let mut ra = Prng::new(seed);
     let mut rb = Prng::new(seed);
     let (mut a, net) = mk(&mut ra)?;
@@ -282,7 +302,12 @@ fn data_twins(front: Front, reg: Reg, flip_bit: Option<usize>, rng: &mut Prng, c
             RK::OtherSession => {
                 // foreign keys; half of the time under this device's own address (a forgery, or the
                 // frame of a previous session of the same address), confirmed or not
-                let other = Net { nwk: rng.arr(), app: rng.arr(), addr: if rng.bool() { net.addr } else { rng.next_u32() } };
+                let mut other = Net { nwk: rng.arr(), app: rng.arr(), addr: if rng.bool() { net.addr } else { rng.next_u32() } };
+                if prelude && rng.chance(2, 3) {
+                    // the keys of the session this device object was in before
+                    other = Net { nwk: old_keys.0, app: old_keys.1, addr: net.addr };
+                    col.event("inserted_frames_of_the_session_left");
+                }
                 other.downlink(&Down { fcnt: n_auth + 1, port: Some(1), payload: &[1], confirmed: rng.bool(), ..Default::default() })
             }
             // in ADR mode nothing was delivered yet: the last accepted downlink is the one the
